@@ -790,6 +790,14 @@ func (fc *fctx) getForToken(cc *ssa.CallCommon, args []*Val, pos token.Pos) []*V
 		}
 		return nil
 	}
+	if slt, ok := t.Underlying().(*types.Slice); ok {
+		// a slice of a struct kind: the token is an index (strconv.Atoi as jsonpointer uses it); in range -> the element,
+		// boxed by value; anything else -> an error. Nothing is written.
+		if est, _ := structOf(slt.Elem()); est != nil {
+			return fc.getForTokenSlice(cc, inner, slt, args)
+		}
+		return nil
+	}
 	st, _ := structOf(t)
 	if st == nil {
 		return nil
@@ -863,5 +871,28 @@ func (fc *fctx) getForTokenPointable(cc *ssa.CallCommon, inner ssa.Value, elem t
 	}
 	tr.assume(implies(not(nonnil), and(eq(ifPart(r, 0), "0"), not(eq(ifPart(errv, 0), "0")))))
 	tr.trusted["jsonpointer.GetForToken on a pointer to a JSONPointable kind: a nil pointer is an error, otherwise the kind's own JSONLookup answers"] = true
+	return []*Val{r, kind, errv}
+}
+
+func (fc *fctx) getForTokenSlice(cc *ssa.CallCommon, inner ssa.Value, slt *types.Slice, args []*Val) []*Val {
+	tr := fc.tr
+	u := tr.u
+	tr.jsonDecls()
+	u.decl("specfn:atoiOK", "(declare-fun atoiOK (String) Bool)")
+	u.decl("specfn:atoi", "(declare-fun atoi (String) Int)")
+	sl := fc.val(inner)
+	tok := args[1]
+	rs := cc.Signature().Results()
+	r := fc.freshVal("gfts_r", rs.At(0).Type())
+	kind := fc.freshVal("gfts_k", rs.At(1).Type())
+	errv := fc.freshVal("gfts_err", rs.At(2).Type())
+	idx := "(atoi " + tok.E() + ")"
+	in := and("(atoiOK "+tok.E()+")", "(<= 0 "+idx+")", "(< "+idx+" "+slPart(sl, 2)+")")
+	elem := tr.load(tr.cur, u.sla(sl, idx), slt.Elem())
+	ift := types.NewInterfaceType(nil, nil)
+	boxed := mkIface(ift, fmt.Sprint(u.typeID(slt.Elem())), u.box(elem))
+	tr.assume(implies(in, and(eq(r.E(), boxed.E()), eq(ifPart(errv, 0), "0"))))
+	tr.assume(implies(not(in), and(eq(ifPart(r, 0), "0"), not(eq(ifPart(errv, 0), "0")))))
+	tr.trusted["jsonpointer.GetForToken on a slice of a struct kind: a token that strconv.Atoi accepts and that is in range yields the element (boxed by value), any other token an error"] = true
 	return []*Val{r, kind, errv}
 }
